@@ -115,7 +115,7 @@ def sections(tier):
         plan = [('X1s', False), ('X4r', False), ('X1', False)]
         to, bud, full = 60000, 170, 0
     else:
-        plan = [('X1s', True), ('X4r', True), ('X1', True), ('X2', False), ('X2b', False), ('X3', False)]
+        plan = [('X1s', True), ('X4r', True), ('X1', True), ('X1si', True), ('X2', False), ('X2b', False), ('X3', False)]
         to, bud, full = 120000, 1200, 120000
     for cname, sp in plan:
         crys, calc, jn = inter.get_calc(cname)
